@@ -83,8 +83,8 @@ def parse_cases(out):
     return res
 
 
-def model_driver_path():
-    return os.path.join(VERIF, "coq", "Extract", "model_driver")
+def model_driver_path(fam="kick"):
+    return os.path.join(VERIF, "coq", "Extract", "bin", "model_" + fam)
 
 
 # ------------------------------------------------------------------------------------ context
@@ -117,7 +117,7 @@ class Ctx:
     def quick(self):
         return self.tier == "quick"
 
-    def build(self, flavour="std", harness=("impl_driver",), want_binary=False):
+    def build(self, flavour="std", harness=("impl_kick",), want_binary=False):
         key = (flavour, harness, want_binary)
         if key not in self._targets:
             self._targets[key] = vp_build.build(flavour, harness=harness, want_binary=want_binary, log=self.log)
